@@ -36,4 +36,7 @@ EXTRAS = [
     lambda rep, fb, tier: pyrules.rule_py_call_shape(rep),
     lambda rep, fb, tier: pyrules.rule_py_isinstance_shadow(rep),
     lambda rep, fb, tier: __import__("vf.rules.pyrules3", fromlist=["x"]).rule_py_unused_local(rep),
+    lambda rep, fb, tier: __import__("vf.rules.pyrules4", fromlist=["x"]).rule_py_numpy_positional(rep),
+    lambda rep, fb, tier: __import__("vf.rules.pyrules4", fromlist=["x"]).rule_py_recursion_all_options(rep),
+    lambda rep, fb, tier: __import__("vf.rules.pyrules4", fromlist=["x"]).rule_py_dunder_other(rep),
 ]
